@@ -128,13 +128,14 @@ class PackageMemberSpec(Spec):
 
 
 class RedefinitionSpec(Spec):
-    """one name defined in two branches of which only one executes, and two module files with the same base name analysed
-    one after the other in one process (both: known findings F43 / F44 - the static reading cannot know which branch runs,
-    the dynamic one is answered from sys.modules)"""
+    """two module files with the same base name analysed one after the other in one process (known finding F43: the dynamic
+    analysis of the second file is answered from sys.modules)"""
     prop = 'C16'
     name = 'redefinitions'
-    title = 'same name in two branches; same module name in two directories'
-    CASES = ['if-else', 'if-else-second-runs', 'try-except', 'same-basename', 'same-basename-static-first']
+    title = 'same module name in two directories, analysed one after the other'
+    # (one name defined in both branches of an if/else or try/except was tried here as well; by DESIGN 3 rule 5 a definition
+    # that never executes is outside C16 - static analysis cannot know which branch runs - so those cases were dropped)
+    CASES = ['same-basename', 'same-basename-static-first']
     max_len = 2
 
     def __init__(self):
